@@ -1417,4 +1417,24 @@ example : lookupMixin exSt.heap exCtx.env "m" =
 example : findFrame exHeap [0] "y" = none ∧ findFrame exHeap [1, 0] "x" = some 1 ∧ findFrame exHeap [0] "x" = some 0 :=
   ⟨rfl, rfl, rfl⟩
 
+/-! ### as-found witnesses for the repaired findings N2 and N4 (tree before e36bfd5 / e10570a) -/
+
+/-- N2: before the repair a space-separated list spread into a rest parameter arrived
+    comma-separated; now (and in the specification) it keeps its separator, and arguments passed
+    one by one give a comma list. -/
+theorem C03_asFound_rest_separator :
+    restSep Dev.asFound .space = .comma ∧ restSep Dev.now .space = .space ∧
+    (∀ s, restSep Dev.now s = restSep Dev.spec s) ∧ restSep Dev.spec .undecided = .comma := by
+  refine ⟨by decide, by decide, ?_, by decide⟩
+  intro s; cases s <;> decide
+
+/-- N4: before the repair `@debug "foo"` / `@warn "foo"` delivered the quotes; now (and in the
+    specification) the string's text. -/
+theorem C03_asFound_message_quotes :
+    messageText Dev.asFound true (.str "foo" true) = (Value.str "foo" true).inspect ∧
+    messageText Dev.asFound false (.str "foo" true) = (Value.str "foo" true).toCss ∧
+    messageText Dev.now true (.str "foo" true) = .ok "foo" ∧
+    messageText Dev.now false (.str "foo" true) = .ok "foo" := by
+  refine ⟨rfl, rfl, ?_, ?_⟩ <;> simp [messageText, Dev.now, plainText]
+
 end Grass.Eval
